@@ -5371,6 +5371,11 @@ class PyCdlib:
             # Rule 9
             raise pycdlibexception.PyCdlibInvalidInput('A Joliet path can only be specified for a Joliet ISO')
 
+        if rr_path == '' or udf_target == '':
+            # An empty target would be recorded as a plain empty file (Rock
+            # Ridge) or as a link to the root directory (UDF).
+            raise pycdlibexception.PyCdlibInvalidInput('The target of a symlink must not be empty')
+
         # Checks complete, we can go on to make the symlink.
 
         num_bytes_to_add = 0
